@@ -148,23 +148,7 @@ def rule_ws_api(ctx, rep):
                     if fnp in WS_UNICODE:
                         uni.append((path, fnp))
     rep.ok(R, 'inventory', 'no ASCII-only whitespace facility among %d call sites' % n)
-    if getattr(ctx, 'inventory_only', False):
-        return
-    want = {('word_to_digit::text2digits', 'core::str::split_whitespace'),
-            ('word_to_digit::is_whitespace', 'core::char::methods::is_whitespace'),
-            ("word_to_digit::FindNumbers::<'a, L, T, I>::outside_number", 'core::str::trim')}
-    have = set(uni)
-    for w in sorted(want):
-        rep.check(any(h[1] == w[1] and (h[0] == w[0] or h[0].startswith(w[0] + '::{closure')) for h in have), R,
-                  'unicode-site|%s' % w[0].split('::')[-1], '%s uses %s' % w,
-                  'whitespace classification in %s no longer uses the Unicode predicate %s' % w)
-    en = [u for u in have if 'lang::en::English' in u[0] and 'basic_annotate' in u[0]]
-    rep.check(bool(en), R, 'unicode-site|English::basic_annotate', 'the significance filter of the English annotation pass uses %s' % [e[1] for e in en],
-              'the English annotation pass does not classify whitespace with a Unicode predicate')
-    # is_whitespace is what FindNumbers::push uses to skip tokens
-    qq = q(ctx, FN + 'push')
-    rep.check(qq is not None and bool(qq.calls('word_to_digit::is_whitespace')), R, 'scanner-skip', 'the scanner skips tokens by is_whitespace()',
-              'the scanner no longer uses is_whitespace() to skip whitespace tokens')
+
 
 
 # ---------------------------------------------------------------------------------------
